@@ -84,10 +84,19 @@ Trees(n) == {t \in [1..n -> UNION {NodeChoices(i) : i \in 1..n}] :
                 (\A i \in 1..n : t[i] \in NodeChoices(i)) /\ WellFormedTree(t)}
 ArgChoices(n) == {[node |-> x, slash |-> FALSE] : x \in (0..n) \cup {0 - 1}}
                  \cup {[node |-> x, slash |-> TRUE] : x \in 1..n}
+(* two arguments that mention the same file twice: a node and one of its ancestors (or itself), in either order *)
+RECURSIVE AncOrSelf(_, _, _)
+AncOrSelf(t, a, i) == IF i = a THEN TRUE ELSE IF i <= 0 THEN FALSE ELSE AncOrSelf(t, a, t[i].parent)
+OverlapArgs(t, n) == {<<x, y>> : x \in ArgChoices(n), y \in ArgChoices(n)} \ {p \in ArgChoices(n) \X ArgChoices(n) :
+                         p[1].node < 0 \/ p[2].node < 0 \/ ~(AncOrSelf(t, p[1].node, p[2].node) \/ AncOrSelf(t, p[2].node, p[1].node))}
 TreeInputs ==
     UNION {{[tree |-> t, args |-> a, opts |-> [DefaultOpts EXCEPT !.gitignore = g]]
               : t \in Trees(n), a \in UNION {[1..m -> ArgChoices(n)] : m \in 0..MaxArgs}, g \in BOOLEAN}
            : n \in 0..MaxN}
+    \cup (IF MaxArgs >= 2 THEN {}
+          ELSE UNION {UNION {{[tree |-> t, args |-> a, opts |-> DefaultOpts] : a \in OverlapArgs(t, n)}
+                                : t \in {u \in Trees(n) : n <= 2 \/ (u[2].parent = 1 /\ u[3].parent = 2)}}     \* 3 nodes: chains only
+                      : n \in 1..(IF MaxN < 3 THEN MaxN ELSE 3)})
 
 (* options: one file, every option combination *)
 RuleWords == {CheckNames[i] : i \in DOMAIN CheckNames} \cup {PrimaryPairs[i][1] : i \in DOMAIN PrimaryPairs}
